@@ -792,6 +792,10 @@ class Footprint(Shape):
     """A polygon extruded infinitely in +-z."""
     kind = "Footprint"
     dim = 3
+    # Mesh operations bound the footprint by an extruded prism; when the extrusion is not a valid
+    # volume the library silently buffers + simplifies the polygon by up to 1e-3 (it warns only
+    # from 1e-2 on): absolute slack of the documented "approximate bounded footprint".
+    approx = 2e-3
 
     def __init__(self, poly):
         self.poly = _norm_poly(poly)
